@@ -152,6 +152,7 @@ REG['C11'] = {
         dict(id='c11_k_month_next', fn='SolarMonth::next', clause='12*year+month-1 moves by exactly n'),
         dict(id='c06_k_next', fn='SolarTerm::next', clause='24*year+index moves by exactly n'),
         dict(id='c08_k_month_next', thorough_only=True, fn='SixtyCycleMonth::next', clause='12*year + index moves by exactly n (|n| <= 300)'),
+        dict(id='c11_k_lunar_hour_carry', fn='LunarHour::next', clause='hour + 2n == 24 * (days handed to LunarDay::next) + new hour, 0 <= new hour < 24, minute and second kept, every hour and |n| < 2^40 (day step and constructor replaced by recording stubs)'),
         dict(id='c11_k_jd_next', thorough_only=True, fn='JulianDay::next / subtract', clause='f64 addition of n days is exact for |n| < 2^31 on half-integral dates'),
     ],
     'V': [
@@ -250,14 +251,17 @@ REG['C07'] = {
 REG['C08'] = {
     'K': [dict(id='c08_k_first_month_args', fn='SixtyCycleYear::get_first_month', clause='stem index fed to the name lookup == Five-Tigers stem of the year stem, every year -1..9999 (index-faithful cheap constructors)'),
           dict(id='c08_k_month_next', thorough_only=True, fn='SixtyCycleMonth::next / get_index_in_year', clause='12*year + index moves by exactly n and the pillar by n, every month and |n| <= 300 (wider n: solver budget)'),
-          dict(id='c08_k_month_pillar_args', fn='LunarMonth::get_sixty_cycle', clause='branch index == 2 + position, stem index == Five-Tigers stem + position (mod 10/12), every year and position')],
+          dict(id='c08_k_month_pillar_args', fn='LunarMonth::get_sixty_cycle', clause='branch index == 2 + position, stem index == Five-Tigers stem + position (mod 10/12), every year and position'),
+          dict(id='c08_k_from_solar_day', fn='SixtyCycleDay::from_solar_day', clause='real body over ARBITRARY callee answers (start of spring, lunar date, governing term and its day, constrained only by C06 order and C02 year adjacency): year pillar year == civil year from the start-of-spring day on, previous year before it; month pillar == first-month pillar advanced by floor((term position - 3)/2); day pillar and date carried'),
+          dict(id='c09_k_from_solar_time', thorough_only=True, fn='SixtyCycleHour::from_solar_time (quick tier: run under C09)', clause='same at instant granularity: the year and month pillars switch at the term INSTANT; day pillar advanced by one from 23:00; hour pillar carried'),
+          dict(id='c08_k_pair_lemma', fn='(lemma over the contracts above)', clause='with pillar year Y (civil year or the one before, by start of spring) and month pillar = first-month pillar of the civil year + k: month branch == Yin + k and month stem == Five-Tigers stem of the stem of Y + position; hence only legal year/month pairs')],
     'level': 'other',
     'design_ref': '5/C08',
-    'technique': 'contract of SixtyCycleDay::from_solar_day / SixtyCycleHour::from_solar_time (year pillar at Lichun, month pillar at each Jie, Five Tigers) executed exhaustively over every civil date and around every Jie instant; Kani on month stepping',
-    'level_text': 'Mostly bounded: the year/month pillar contract is stated over the term table (Y = floor((k-3)/24), Yin month at Lichun, stem by Five Tigers) and executed for every civil date 0001..9998 (day view) and for the second before/at/after every Jie instant plus one random instant per term (time view, incl. agreement with the day view on days without a Jie). The function bodies go through f64 floor and name-table objects and are outside both verifiers; deductive parts: term search (C06 Verus unit), the Five-Tigers index arithmetic of SixtyCycleYear::get_first_month and LunarMonth::get_sixty_cycle (Kani, recording stubs).',
+    'technique': 'Kani on the real bodies of SixtyCycleDay::from_solar_day / SixtyCycleHour::from_solar_time over arbitrary answers of their callees (year pillar at Lichun, month pillar at each Jie), on the Five-Tigers arguments and on month stepping; Verus on the term search; the composite contract executed exhaustively over every civil date and around every Jie instant',
+    'level_text': 'Deductive part (Kani, real bodies): SixtyCycleDay::from_solar_day and SixtyCycleHour::from_solar_time are proved over ARBITRARY answers of the four things they ask for (start of spring of the civil year, lunar date, governing term and its day/instant; assumed only: terms are ordered with start of spring = term 3 [C06], the lunar year is the civil year or a neighbour [C02]): pillar year == civil year from the start of spring on and the previous year before it, month pillar == first-month pillar advanced by floor((term position - 3)/2) (so it changes at each Jie and only there), day pillar advanced at 23:00 in the instant view; the Five-Tigers indices of SixtyCycleYear::get_first_month and LunarMonth::get_sixty_cycle (recording stubs); the closing arithmetic lemma (month stem == Five Tigers of the PILLAR year stem, only the 60x12 legal pairs); SixtyCycleMonth::next; the term search (C06 Verus unit). Bounded part: the composite contract stated over the term table (Y = floor((k-3)/24), Yin month at Lichun, stem by Five Tigers) executed for every civil date 0001..9998 (day view) and for the second before/at/after every Jie instant plus one random instant per term (time view, incl. agreement with the day view on days without a Jie). Term instants themselves are astronomy (L-TD, executed).',
     'level_note': 'exhaustive execution over the finite day domain is complete for the day view but is NOT a proof about the code for all inputs in the sense of K/V; time view is sampled around the switching instants; known findings: day pillar in the reform-year windows (consequence of C03)',
     'explanation': 'bounded stand-in: exhaustive execution of the day-view contract over all 3.65 M dates, boundary-biased execution of the time view; term-search obligations are proved in C06',
-    'functions': ['SixtyCycleDay::from_solar_day (leaf)', 'SixtyCycleHour::from_solar_time (leaf)', 'SixtyCycleYear::get_first_month (leaf)', 'LunarMonth::get_sixty_cycle (leaf)', 'SixtyCycleMonth::next / get_index_in_year (leaf)'],
+    'functions': ['SixtyCycleDay::from_solar_day', 'SixtyCycleHour::from_solar_time', 'SixtyCycleYear::get_first_month', 'LunarMonth::get_sixty_cycle', 'SixtyCycleMonth::next / get_index_in_year', 'SolarDay::get_term / SolarTime::get_term (C06 unit)'],
     'V': [
         dict(id='c06_term_search', template='verus/c06_term_search.rs', clause='the governing term of a date / instant is the latest one starting on or before it (the month pillar switches exactly at Jie days / instants)'),
     ],
@@ -270,7 +274,8 @@ REG['C08'] = {
 
 REG['C09'] = {
     'K': [dict(id='c09_k_hour_index', fn='LunarHour::get_index_in_day', clause='index in day == floor((hour+1)/2) for every hour and every lunar day'),
-          dict(id='c09_k_hour_pillar_args', fn='LunarHour::get_sixty_cycle', clause='for all 60 day pillars x 24 hours: branch index fed to the name lookup == floor((h+1)/2) mod 12, stem index == Five-Rats stem of the day stem (next day from 23:00) + branch (mod 10); real body, index-faithful cheap constructors + recording stubs')],
+          dict(id='c09_k_hour_pillar_args', fn='LunarHour::get_sixty_cycle', clause='for all 60 day pillars x 24 hours: branch index fed to the name lookup == floor((h+1)/2) mod 12, stem index == Five-Rats stem of the day stem (next day from 23:00) + branch (mod 10); real body, index-faithful cheap constructors + recording stubs'),
+          dict(id='c09_k_from_solar_time', fn='SixtyCycleHour::from_solar_time', clause='the four pillars are composed from the lunar day pillar (advanced by one from 23:00), the lunar hour pillar, and the year / month pillars switching at the term instants; real body over arbitrary callee answers')],
     'level': 'other',
     'design_ref': '5/C09',
     'technique': 'hour-pillar contract (branch floor((h+1)/2) mod 12, Five Rats, 23:00 roll) executed over all 60 x 24 combinations; eight characters == four pillars; inverse search soundness/completeness by seeded execution',
